@@ -601,6 +601,20 @@ Proof.
   subst p. rewrite P1, P2. split; [congruence|]. rewrite H4. lia.
 Qed.
 
+(** JsFormat prints the mapper's column as it is: always one more than the column *)
+Lemma jsformat_column file a b :
+  known_multibyte file [a; b] = false -> a <> b -> a <= blen file -> b <= blen file ->
+  let locs := offset_to_location Cur file [a; b] in
+  print_js (nth 0 locs zero_loc) = (spec_line (encode file) a, spec_col (encode file) a + 1).
+Proof.
+  intros Hk Hne Ha Hb locs.
+  assert (Hd : known_dup [a; b] = false).
+  { unfold known_dup. simpl. destruct (N.eqb_spec a b); [contradiction|reflexivity]. }
+  assert (Hle : forall o', In o' [a; b] -> o' <= blen file) by (intros o' [H|[H|[]]]; subst; auto).
+  pose proof (loc_cur_restricted file [a; b] 0 a Hk Hd Hle eq_refl) as H0.
+  fold locs in H0. unfold core in H0. inversion H0. unfold print_js. congruence.
+Qed.
+
 (* ------------------------------------------------------------------ tiling *)
 Lemma lex_loop_tiles {K} (matcher : list N -> option (K * N)) :
   matcher_ok matcher ->
